@@ -177,6 +177,36 @@ func getJ2TExtraStruct(fsm *types.J2TStateMachine, offset int) (td *thrift.TypeD
 	return
 }
 
+// restoreReqsCache sets the length of the requires-bitmap cache to the end of the bitmap of the innermost open struct.
+// NOTICE: if the native code runs out of buffer while it is closing a struct, it rolls its state back,
+// but it has already released the bitmap of that struct and would release it once more on re-entry.
+//
+//go:nocheckptr
+func restoreReqsCache(fsm *types.J2TStateMachine) {
+	c := (*rt.GoSlice)(unsafe.Pointer(&fsm.ReqsCache))
+	base := uintptr(c.Ptr)
+	n := 0
+	for i := 0; i < fsm.SP; i++ {
+		st := fsm.At(i)
+		if s := types.J2T_STATE(st.State & 0xffff); (s != types.J2T_OBJ && s != types.J2T_OBJ_0) || st.TypeDesc == 0 {
+			continue
+		}
+		if td := (*thrift.TypeDescriptor)(unsafe.Pointer(st.TdPointer())); td.Type() != thrift.STRUCT {
+			continue
+		}
+		reqs := (*rt.GoString)(unsafe.Pointer(&(*_J2TExtra_STRUCT)(unsafe.Pointer(&st.Extra)).reqs))
+		p, l := uintptr(reqs.Ptr), uintptr(reqs.Len)*8
+		if p < base || p+l > base+uintptr(c.Cap) {
+			// not inside the current cache, leave it as it is
+			return
+		}
+		if e := int(p - base + l); e > n {
+			n = e
+		}
+	}
+	c.Len = n
+}
+
 func (self BinaryConv) handleError(ctx context.Context, fsm *types.J2TStateMachine, buf *[]byte, src []byte, req http.RequestGetter, ret uint64, top bool) (cont bool, err error) {
 	e := getErrCode(ret)
 	p := int(ret >> types.ERR_WRAP_SHIFT_CODE)
@@ -219,6 +249,7 @@ func (self BinaryConv) handleError(ctx context.Context, fsm *types.J2TStateMachi
 		}
 	case types.ERR_OOM_BUF:
 		{
+			restoreReqsCache(fsm)
 			c := cap(*buf)
 			c += c >> 1
 			if c < cap(*buf)+p {
